@@ -178,7 +178,7 @@ func LoadEngine(goarch string) (*Engine, error) {
 		}
 	}
 	e.solverKd = "z3-new"
-	e.timeout = 60000
+	e.timeout = 180000
 	e.loadTime = time.Since(t0)
 	return e, nil
 }
